@@ -89,4 +89,15 @@ impl IoUring {
     pub fn verif_sq_local_tail(&self) -> u32 {
         self.submission_queue.tail
     }
+
+    /// What set-up extracted about the rings: `(sq ring_entries, sq ring_mask, cq ring_entries, cq ring_mask)`
+    #[must_use]
+    pub fn verif_ring_geometry(&self) -> (u32, u32, u32, u32) {
+        (
+            self.submission_queue.ring_entries,
+            self.submission_queue.ring_mask,
+            self.completion_queue.ring_entries,
+            self.completion_queue.ring_mask,
+        )
+    }
 }
